@@ -1,6 +1,6 @@
 (* C02 — property theorems.  Only statements, `exact`, and Print Assumptions. *)
 From Sdns Require Import Common.Base Gen.C02 C02.Model C02.Spec
-  C02.ModelNsec3 C02.Proofs_Order C02.Proofs_Nsec C02.Proofs_Spec C02.Proofs_NsecTop C02.Proofs_Nsec3 C02.ModelCut C02.Proofs_Cut.
+  C02.ModelNsec3 C02.Proofs_Order C02.Proofs_Nsec C02.Proofs_Spec C02.Proofs_NsecTop C02.Proofs_Nsec3 C02.ModelCut C02.Proofs_Cut C02.ModelAuth.
 Open Scope N_scope.
 
 (* ---- canonical order (RFC 4034 §6.1) is a total order *)
@@ -201,3 +201,34 @@ Theorem cut_cache_sound :
   exists exp, In (d, qclass, exp) log /\ (now < exp)%Z /\ created maxttl (d, qclass, exp).
 Proof. exact Proofs_Cut.cut_cache_sound. Qed.
 Print Assumptions cut_cache_sound.
+
+(* ---- incomplete_never_denies, hash side: a question whose NSEC3 hash could not be obtained (work
+   budget refused, or the concurrent owner of the shared memo slot failed) is never denied.
+   (Run.spec_case applies the same rule to every requested name: CaseNsec3Work / no_denial3.) *)
+Theorem failed_hash_never_denies :
+  forall q qtype qclass signer recs tab fx,
+  hash_lookup tab q = None ->
+  (exists e, aggr_nsec3 q qtype qclass signer recs tab = A_err e) /\
+  (prefix_b signer q = true ->
+     fst (verify_nameerror_nsec3 q qclass recs signer tab) <> E_ok /\
+     fst (verify_nodata_nsec3_gen fx q qtype qclass recs signer tab) <> E_ok).
+Proof. exact (fun q qtype qclass signer recs tab fx Hn =>
+  conj (aggr_nsec3_failed_hash q qtype qclass signer recs tab Hn)
+       (fun Hp => conj (nsec3_nameerror_failed_hash q qclass recs signer tab Hp Hn)
+                       (nsec3_nodata_failed_hash fx q qtype qclass recs signer tab Hp Hn))). Qed.
+Print Assumptions failed_hash_never_denies.
+
+(* ---- Resolver.authority, NSEC branch: what it authenticates (AD), publishes as validated-negative
+   provenance, or marks aggressive-eligible (the flag that stops the minimised walk and admits
+   RecordDenialProof / RecordNXDomainCut) is a true denial of the zone; nothing for CD=1; eligible
+   only when the RFC 8198 classifier reached the response's own RCODE *)
+Theorem authority_nsec_sound :
+  forall z set rcode cd q qtype qclass signer ad marked aggr,
+  zone_wf z -> (forall r, In r set -> genuine z r) -> is_prefix (z_apex z) q ->
+  authority_nsec rcode cd q qtype qclass signer set = (E_ok, ad, marked, aggr) ->
+  (ad = true \/ marked = true \/ aggr = true) ->
+  cd = false /\
+  (if (rcode =? RC_NXDOMAIN)%N then ~ exists_in z q else nodata_true z q qtype) /\
+  (aggr = true -> exists proof, aggr_nsec q qtype qclass signer set = A_deny rcode proof).
+Proof. exact authority_nsec_sound_lemma. Qed.
+Print Assumptions authority_nsec_sound.
